@@ -154,9 +154,13 @@ impl<'a> TokenStream<'a> {
     /// Expands the span
     #[inline(always)]
     pub fn expand_span(&self, mut span: Span) -> Span {
-        span.end_line = self.last_span.end_line;
-        span.end_col = self.last_span.end_col;
-        span.end_offset = self.last_span.end_offset;
+        // if no token was consumed since the span was taken, the last token
+        // lies in front of it and expanding would produce an inverted span.
+        if self.last_span.end_offset >= span.start_offset {
+            span.end_line = self.last_span.end_line;
+            span.end_col = self.last_span.end_col;
+            span.end_offset = self.last_span.end_offset;
+        }
         span
     }
 
